@@ -318,8 +318,39 @@ def oracle_pipeline(case, rec):
         shutil.rmtree(tmp, ignore_errors=True)
 
 
+@st.composite
+def long_history_case(draw):
+    """Many mini-batches that each contain the same few thousand distinct values: the per-batch distinct counts add up beyond
+    the sketch's warm-up capacity (2^18) while the true cardinality stays far below it."""
+    k = draw(st.integers(2500, 6000))
+    return {'k': k, 'batches': (2**18 // k) + draw(st.integers(2, 6)), 'seed': draw(st.integers(0, 2**32 - 1))}
+
+
+def oracle_long_history(case, rec):
+    import numpy as np
+    k, nb = int(case['k']), int(case['batches'])
+    rng = np.random.Generator(np.random.PCG64(int(case['seed'])))
+    values = [f'id{i}' for i in range(k)]
+    stubs.reset_globals()
+    args = stubs.make_args()
+    for b in range(nb):
+        order = rng.permutation(k).tolist()
+        df = pd.DataFrame({'f1': [values[i] for i in order], 'label': [str(i % 2) for i in order]})
+        cr.compute_cardinalities(df, stubs.PBar(), args.max_unique_hist_constraint)
+    card = {c: len(v) for c, v in cr.GLOBAL_CARDINALITY_STORAGE.items()}
+    rec.nt(True, key=case)
+    rec.cls('long-history')
+    if card.get('f1') != k or card.get('label') != 2:
+        raise Violation(f'after {nb} mini-batches that each contain the same {k} distinct values the cardinality is reported as '
+                        f'{card}, exact {{f1: {k}, label: 2}} (far below the sketch warm-up capacity)', kind='C13/cardinality')
+    hist = cr.GLOBAL_COUNTS_STORAGE['f1'].default_counter
+    if len(hist) != k or set(hist.values()) != {nb}:
+        raise Violation(f'value counts after {nb} batches: {len(hist)} values tracked, counts {sorted(set(hist.values()))[:5]}, '
+                        f'exact: {k} values x {nb}', kind='C13/histogram')
+
+
 KNOWN_EMPTY = [False]
-ORACLES = {'C13/functions': oracle_functions, 'C13/pipeline': oracle_pipeline, 'C13/compositions': oracle_functions}
+ORACLES = {'C13/long-history': oracle_long_history, 'C13/functions': oracle_functions, 'C13/pipeline': oracle_pipeline, 'C13/compositions': oracle_functions}
 for _k in ('coverage', 'cardinality', 'histogram', 'histogram-split', 'rare'):
     ORACLES['C13/' + _k] = oracle_functions
 for _k in ('annotation', 'repetitions', 'rare-report', 'rare-report-empty'):
@@ -347,5 +378,6 @@ def run(ctx):
     ctx.extra['exhaustive_scope'] = f'every composition of {6 * len(res)} row sequences of 2-9 rows: {tot} (sequence, composition) pairs'
     drive(ctx, [
         Clause('C13/functions', function_case, oracle_functions, quick=500, thorough=100000, quick_shards=8),
+        Clause('C13/long-history', long_history_case, oracle_long_history, quick=2, thorough=32, quick_shards=2, thorough_shards=16),
         Clause('C13/pipeline', pipeline_case, oracle_pipeline, quick=64, thorough=4000, quick_shards=16),
     ])
